@@ -480,6 +480,9 @@ pub enum Step {
     A1,
     /// ASCII digit pair
     A2,
+    /// FNC1 codeword (232) in a later position of an ASCII stretch: a GS1 field separator, transmitted
+    /// as GS (the data byte at this position must be 29); never produced by the minimal-length search
+    Fnc1,
     /// segment in `mode` covering `len` chars, closed with explicit unlatch (C40/Text/X12/EDIFACT) or
     /// explicit length (Base256)
     Seg(Mode, usize),
@@ -801,6 +804,11 @@ pub fn script_stream(data: &[u8], script: &[Step], prefix: &[u8]) -> Vec<u8> {
             Step::A2 => {
                 out.push(130 + (data[i] - b'0') * 10 + (data[i + 1] - b'0'));
                 i += 2;
+            }
+            Step::Fnc1 => {
+                assert_eq!(data[i], 29);
+                out.push(232);
+                i += 1;
             }
             Step::Seg(m, len) => {
                 out.push(m.latch());
